@@ -70,7 +70,7 @@ func buildVCs(P *Program, names []string) ([]*VC, []error) {
 	var vcs []*VC
 	var errs []error
 	for _, n := range names {
-		spec := P.spec.Funcs[n]
+		spec := P.specNamed(n)
 		if spec == nil {
 			errs = append(errs, fmt.Errorf("no contract named %s", n))
 			continue
@@ -144,7 +144,10 @@ func (vc *VC) attachReplay() {
 func functionsFor(P *Program, prop string) []string {
 	var names []string
 	for _, n := range P.spec.FuncOrder {
-		s := P.spec.Funcs[n]
+		if strings.HasSuffix(n, "@B") {
+			continue
+		}
+		s := P.specNamed(n)
 		if s.Extern || s.IsIface || s.Trusted {
 			continue
 		}
